@@ -28,7 +28,7 @@ def layouts(ctx):
     behs = r.behaviours
     total = len(behs)
     if ctx.quick:
-        behs = random.Random(ctx.seed).sample(behs, 260)
+        behs = random.Random(ctx.seed).sample(behs, 200)
     path = os.path.join(ctx.work, "layouts.json")
     json.dump(behs, open(path, "w"))
     ctx.notes["layouts_from_tlc"] = {"enumerated": total, "rendered": len(behs)}
@@ -37,13 +37,13 @@ def layouts(ctx):
 
 def run(ctx):
     beh, total, used = layouts(ctx)
-    n = 40 if ctx.quick else 600
+    n = 32 if ctx.quick else 600
     info, lines = nf.check_cases(ctx, mode="c09", n=n, module=MODULE, cfg=CFG, diag_cfg=DIAG, beh_path=beh, chunks=4,
                                  timeout=900 if ctx.quick else 3400, nontrivial_fn=nontrivial)
     ctx.cov["rule"] = ("layouts = (a) ALL layouts TLC enumerates for: one tier of 1-2 policies or two tiers of one policy, "
                        "policy = staged/enforced x 1-2 distinct rules over {allow tcp/80, deny from 10/8, pass udp}, tier default "
                        "Deny/Pass, inline or one policy group, no profile or one one-rule profile (7884 layouts; quick tier "
-                       "renders a seeded sample of 260, thorough all), alternating direction / IP version / renderer / flow "
+                       "renders a seeded sample of 200, thorough all), alternating direction / IP version / renderer / flow "
                        "logs; (b) seeded layouts: 0-3 tiers, 0-2 groups per direction of 1-11 policies (crossing the group "
                        "return stride of 5), staged 25% (some all-staged groups), default Pass 35%, 0-2 profiles, rules from a "
                        "12-shape alphabet incl. IP sets, named ports, negations and fully random rules, workload and host "
